@@ -36,7 +36,7 @@ def cases(draw, big=False):
         hmax = draw(st.sampled_from([3, 8, 20, 1000]))
     noise = draw(st.sampled_from([1e-6, 1e-3, 0.02, 0.1, 0.3, 0.45]))
     tol = draw(st.one_of(st.floats(0.001, 0.5, allow_nan=False), st.sampled_from([0.5, 0.05, 0.25])))
-    degenerate = draw(st.sampled_from(["no", "no", "no", "coplanar", "collinear", "samepeak", "dyadic"]))
+    degenerate = draw(st.sampled_from(["no", "no", "no", "coplanar", "collinear", "samepeak", "dyadic", "coplanar_g"]))
     seed = draw(st.integers(0, 2 ** 31 - 1))
     nlabel = draw(st.integers(1, 4))
     return dict(family=fam, cell=[float(x) for x in cell], U=U, left=left, perturb=perturb, n=n, hmax=hmax,
@@ -73,6 +73,18 @@ def build(case):
         gv = np.ascontiguousarray((UB @ (h + d).T).T)
         labels = rng.randint(0, case["nlabel"] + 1, n).astype(np.int32)
         return np.ascontiguousarray(np.linalg.inv(UB)), gv, labels
+    if case["degenerate"] == "coplanar_g":
+        # all g-vectors in one plane (g_z exactly 0) but a tilted trial matrix whose l = 0.3 h rounds to -1, 0, 1: the
+        # integer indices are not coplanar, the normal matrix is regular, yet the fitted UB has a zero row and cannot
+        # be inverted - the input must come back unchanged
+        edges = 2.0 ** rng.randint(0, 4, 3)
+        h = rng.randint(-3, 4, (n, 3)).astype(float)
+        h[:, 2] = 0
+        gv = np.ascontiguousarray(h / edges[None, :])
+        ubi = np.diag(edges)
+        ubi[2] += 0.3 * ubi[0]
+        labels = rng.randint(0, case["nlabel"] + 1, n).astype(np.int32)
+        return np.ascontiguousarray(ubi), gv, labels
     gv = np.ascontiguousarray((UB @ (h + d).T).T)
     ubi = np.linalg.inv(UB)
     if case["perturb"]:
@@ -155,6 +167,8 @@ def check(case, rec=None):
     dyadic = case["degenerate"] == "dyadic"
     if dyadic:
         tol = case["tol"] = [0.5, 0.25, 0.125, 0.5][case["seed"] % 4]
+    if case["degenerate"] == "coplanar_g":
+        tol = case["tol"] = 0.45
     e, hi, sure, amb, half = reference(ubi, gv, tol, exact=dyadic)
     if dyadic:
         amb = amb & False                 # half-integer indices round either way with the same error
